@@ -13,6 +13,7 @@ import (
 	"strings"
 	"sync"
 	"sync/atomic"
+	"time"
 
 	"github.com/drand/drand/v2/common"
 	"github.com/drand/drand/v2/crypto"
@@ -32,6 +33,7 @@ type chainSUT struct {
 	dir     string
 	base    chain.Store
 	top     chain.Store
+	cbs     beacon.CallbackStore // callbackStore(appendStore(schemeStore(base))): what newChainStore hands to the aggregator and the sync manager
 	ctx     context.Context
 }
 
@@ -76,6 +78,7 @@ func (c *chainSUT) build() {
 		panic(err)
 	}
 	c.top = as
+	c.cbs = beacon.NewCallbackStore(quietLogger(), as)
 }
 
 func classifyPut(err error) string {
@@ -222,6 +225,114 @@ func chainEngine(args []string, in *bufio.Scanner, out *bufio.Writer) {
 					okl = append(okl, strconv.Itoa(int(v)))
 				}
 				return fmt.Sprintf("race oks=%s bad=%d", strings.Join(okl, ","), bad)
+			case "get": // read from the base store
+				r, _ := strconv.ParseUint(f[1], 10, 64)
+				return showBeacon(c.base.Get(c.ctx, r))
+			case "qput": // qput <before|during|after> r sig prev: Put through the stack, its context cancelled at that point
+				b := parseBeacon(f[2], f[3], f[4])
+				err, note := putUnderCancel(f[1], c.ctx, c.base, func(ctx context.Context) error { return c.top.Put(ctx, b) })
+				if note == "hang" {
+					return "hang"
+				}
+				res := classifyPut(err)
+				if err != nil && errors.Is(err, context.Canceled) {
+					res = "err-write"
+				}
+				return fmt.Sprintf("%s get=%s", res, showBeacon(c.base.Get(c.ctx, b.Round)))
+			case "brace": // brace <k> <n> <same|diff>: n times, k goroutines leave a barrier to Put a beacon of round head+1
+				k, _ := strconv.Atoi(f[1])
+				n, _ := strconv.Atoi(f[2])
+				diff := f[3] == "diff"
+				var mu sync.Mutex
+				fired := map[uint64]int{}
+				var total int64
+				c.cbs.AddCallback("verif-brace", func(b *common.Beacon, closed bool) {
+					if closed || b == nil {
+						return
+					}
+					mu.Lock()
+					fired[b.Round]++
+					mu.Unlock()
+					atomic.AddInt64(&total, 1)
+				})
+				defer c.cbs.RemoveCallback("verif-brace")
+				var oks, alr, dif, oth, cbn, win []string
+				var nils int64
+				rounds := make([]uint64, 0, n)
+				for i := 0; i < n; i++ {
+					last, err := c.top.Last(c.ctx)
+					if err != nil {
+						return "err:" + err.Error()
+					}
+					r := last.Round + 1
+					rounds = append(rounds, r)
+					prev := last.Signature
+					if !c.chained {
+						prev = nil
+					}
+					cands := make([]*common.Beacon, k)
+					for j := 0; j < k; j++ {
+						sig := []byte{byte(r * 7), byte(r), 0x5b}
+						if diff {
+							sig = append(sig, byte(j))
+						}
+						cands[j] = &common.Beacon{Round: r, Signature: sig, PreviousSig: append([]byte{}, prev...)}
+					}
+					start := make(chan struct{})
+					var wg, ready sync.WaitGroup
+					res := make([]string, k)
+					for j := 0; j < k; j++ {
+						wg.Add(1)
+						ready.Add(1)
+						go func(j int) {
+							defer wg.Done()
+							ready.Done()
+							<-start
+							res[j] = classifyPut(c.cbs.Put(c.ctx, cands[j]))
+						}(j)
+					}
+					ready.Wait()
+					close(start)
+					wg.Wait()
+					cnt := map[string]int{}
+					for _, x := range res {
+						switch x {
+						case "ok", "already", "dup-diff-sig":
+							cnt[x]++
+						default:
+							cnt["other"]++
+						}
+					}
+					nils += int64(cnt["ok"])
+					oks = append(oks, strconv.Itoa(cnt["ok"]))
+					alr = append(alr, strconv.Itoa(cnt["already"]))
+					dif = append(dif, strconv.Itoa(cnt["dup-diff-sig"]))
+					oth = append(oth, strconv.Itoa(cnt["other"]))
+					// whose beacon is the stored one
+					w := "-"
+					if st, err := c.base.Get(c.ctx, r); err == nil {
+						for j := 0; j < k; j++ {
+							if string(st.Signature) == string(cands[j].Signature) {
+								w = strconv.Itoa(j)
+								break
+							}
+						}
+					}
+					win = append(win, w)
+				}
+				// every Put that returned nil handed one job to the callback's worker: wait for them
+				deadline := time.Now().Add(5 * time.Second)
+				for atomic.LoadInt64(&total) < nils && time.Now().Before(deadline) {
+					time.Sleep(100 * time.Microsecond)
+				}
+				time.Sleep(200 * time.Microsecond)
+				mu.Lock()
+				for _, r := range rounds {
+					cbn = append(cbn, strconv.Itoa(fired[r]))
+				}
+				mu.Unlock()
+				j := func(l []string) string { return strings.Join(l, ",") }
+				return fmt.Sprintf("brace ok=%s already=%s diffsig=%s other=%s cb=%s win=%s", j(oks), j(alr), j(dif), j(oth), j(cbn), j(win))
 			case "last":
 				return showBeacon(c.top.Last(c.ctx))
 			case "scan":
